@@ -104,6 +104,7 @@ type InterfaceCollection struct {
 	outPkgName  string
 	interfaces  []*config.Interface
 	template    string
+	formatter   string
 }
 
 func NewInterfaceCollection(
@@ -112,6 +113,7 @@ func NewInterfaceCollection(
 	srcPkg *packages.Package,
 	outPkgName string,
 	templ string,
+	formatter string,
 ) *InterfaceCollection {
 	return &InterfaceCollection{
 		srcPkgPath:  srcPkgPath,
@@ -120,6 +122,7 @@ func NewInterfaceCollection(
 		outPkgName:  outPkgName,
 		interfaces:  make([]*config.Interface, 0),
 		template:    templ,
+		formatter:   formatter,
 	}
 }
 
@@ -154,6 +157,11 @@ func (i *InterfaceCollection) Append(ctx context.Context, iface *config.Interfac
 	if i.template != *iface.Config.Template {
 		msg := "all mocks in an output file must use the same template"
 		log.Error().Str("expected-template", i.template).Str("interface-template", *iface.Config.Template).Msg(msg)
+		return errors.New(msg)
+	}
+	if i.formatter != *iface.Config.Formatter {
+		msg := "all mocks in an output file must use the same formatter"
+		log.Error().Str("expected-formatter", i.formatter).Str("interface-formatter", *iface.Config.Formatter).Msg(msg)
 		return errors.New(msg)
 	}
 	i.interfaces = append(i.interfaces, iface)
@@ -278,6 +286,7 @@ func (r *RootApp) Run() error {
 					iface.Pkg,
 					*ifaceConfig.PkgName,
 					*ifaceConfig.Template,
+					*ifaceConfig.Formatter,
 				)
 			}
 			if err := mockFileToInterfaces[filePath.String()].Append(
